@@ -731,7 +731,9 @@ func (s *Stage) cleanStrays(minAge time.Duration) {
 			filePath := strings.TrimSuffix(path, partExt)
 			fileState := s.getFileState(filePath)
 			fileHash := s.getFileHash(filePath)
-			if fileState > stateReceived {
+			if fileState > stateReceived && fileState != stateFailed {
+				// (a version that failed validation is not held anywhere: a
+				// partial of it is its retransmission, which the log decides)
 				delete = comp == nil || comp.Hash == fileHash
 				deleteCmp = compExists && fileState == stateLogged
 				s.logDebug("Stray partial cache info:", relPath, fileState, fileHash)
